@@ -28,6 +28,54 @@ Theorem standalone_success_audited : forall init_ok sign_ok apply_ok s e,
   count_ok_amqp e = nb (amqp_configured s) /\ count_ok_append e = nb (file_configured s) /\ In (ESign true) e.
 Proof. exact C06.Proofs.standalone_success_audited. Qed.
 
+(* the same for EVERY order in which PublishAudit might try the two sinks, and every subset of failing sinks:
+   a later successful sink can never make up for an earlier failure, nor an earlier success for a later failure *)
+Theorem sink_failure_blocks_every_order : forall pc init_ok sign_ok s,
+  In 0 pc -> In 1 pc ->
+  (amqp_configured s = true /\ amqp_ok s = false) \/ (file_configured s = true /\ file_ok s = false) ->
+  responds_200 (serve_p pc serve_calls init_ok sign_ok s) = false.
+Proof. exact C06.Proofs.sink_failure_blocks_every_order. Qed.
+
+Theorem audit_before_response_every_order : forall pc init_ok sign_ok s,
+  Permutation [0; 1] pc ->
+  responds_200 (serve_p pc serve_calls init_ok sign_ok s) = true ->
+  let pre := before_200 (serve_p pc serve_calls init_ok sign_ok s) in
+  count_ok_amqp pre = nb (amqp_configured s) /\ count_ok_append pre = nb (file_configured s) /\
+  In (ESign true) pre /\ init_ok = true /\ sign_ok = true.
+Proof. exact C06.Proofs.audit_before_response_every_order. Qed.
+
+(* PublishAudit, any order: it fails iff an attempted delivery failed, and nothing is attempted after a failure
+   (so which sinks hold a record of a refused request is determined by the order srcgen reads from the source) *)
+Theorem publish_result : forall pc s, snd (publish pc s) = negb (existsb is_failed_sink (fst (publish pc s))).
+Proof. exact C06.Proofs.publish_result. Qed.
+Theorem publish_stops : forall pc s, stops_at_failure (fst (publish pc s)) = true.
+Proof. exact C06.Proofs.publish_stops. Qed.
+
+(* no duplicates: one request yields at most one record per sink, one connection to the broker, one response *)
+Theorem at_most_one_record : forall init_ok sign_ok s,
+  let t := serve_sign init_ok sign_ok s in
+  (count_ok_amqp t <= 1)%nat /\ (count_ok_append t <= 1)%nat /\ (count_200 t <= 1)%nat /\
+  (attempts_amqp t <= 1)%nat /\ (attempts_append t <= 1)%nat.
+Proof. exact C06.Proofs.at_most_one_record. Qed.
+
+(* over any sequence of requests (each with its own faults): every returned signature is covered by a record in each
+   configured sink; and while the sinks are healthy  #file records = #broker messages = #signatures returned *)
+Theorem responses_covered_by_records : forall ac fc rs,
+  let t := serve_all ac fc rs in
+  (nb ac * count_200 t <= count_ok_amqp t)%nat /\ (nb fc * count_200 t <= count_ok_append t)%nat.
+Proof. exact C06.Proofs.responses_covered_by_records. Qed.
+Theorem records_equal_responses : forall ac fc rs,
+  forallb healthy rs = true ->
+  let t := serve_all ac fc rs in
+  count_ok_amqp t = (nb ac * count_200 t)%nat /\ count_ok_append t = (nb fc * count_200 t)%nat.
+Proof. exact C06.Proofs.records_equal_responses. Qed.
+
+(* standalone: a failing sink makes the command fail (the artefact is already written: EApply precedes, see Example) *)
+Theorem standalone_sink_failure_fails : forall init_ok sign_ok apply_ok s,
+  (amqp_configured s = true /\ amqp_ok s = false) \/ (file_configured s = true /\ file_ok s = false) ->
+  snd (sign_cmd init_ok sign_ok apply_ok s) = false.
+Proof. exact C06.Proofs.standalone_sink_failure_fails. Qed.
+
 (* one write system call per record (generated call table of AppendTo) *)
 Theorem single_write_per_record : append_writes = 1.
 Proof. exact C06.Proofs.single_write_per_record. Qed.
@@ -42,3 +90,22 @@ Example both_sinks_file_fails :
   serve_sign true true (mkSinks true true true false) = [ESign true; EAmqp true; EAppend false; ERespond 500] /\
   serve_sign true true (mkSinks false true true true) = [ESign true; EAppend true; ERespond 200].
 Proof. split; reflexivity. Qed.
+
+(* the code's order is AMQP first: with the file failing and a healthy broker the broker HOLDS a record of the refused
+   request (a record without a signature is allowed; a signature without a record is not), and with the broker failing
+   the file is not even tried *)
+Example record_without_signature :
+  let t := serve_sign true true (mkSinks true true true false) in
+  responds_200 t = false /\ count_ok_amqp t = 1%nat /\ count_ok_append t = 0%nat /\ attempts_append t = 1%nat.
+Proof. repeat split; reflexivity. Qed.
+Example broker_failure_skips_file :
+  let t := serve_sign true true (mkSinks true true false true) in
+  responds_200 t = false /\ attempts_amqp t = 1%nat /\ attempts_append t = 0%nat.
+Proof. repeat split; reflexivity. Qed.
+Example standalone_sink_failure_after_apply :
+  sign_cmd true true true (mkSinks true true true false) = ([ESign true; EApply; EAmqp true; EAppend false], false).
+Proof. reflexivity. Qed.
+Example healthy_batch :
+  let t := serve_all true true [mkReq true true true true; mkReq true false true true; mkReq true true true true] in
+  count_200 t = 2%nat /\ count_ok_amqp t = 2%nat /\ count_ok_append t = 2%nat.
+Proof. repeat split; reflexivity. Qed.
